@@ -52,7 +52,8 @@ pub assume_specification<Idx: Clone> [<std::ops::Range<Idx> as Clone>::clone] (r
     im.resub(r'\bbyte_offset\(([^()]*(?:\([^()]*\))?[^()]*)\)', r'byte_offset_of(&char_byte_offsets, \1)', 'R14', 'closure call -> stub call', count=None)
     im.resub(r'\bline\.get\((\w+)\.\.(\w+)\)\.unwrap_or\(""\)', r'str_get_or_empty(line, \1, \2)', 'R19', 'str::get(range).unwrap_or("") -> stub', count=None)
     im.resub(r'tokens\.sort_by_key\(\|token\| token\.location\(\)\.start\.index\);', 'sort_tokens_by_start(&mut tokens);', 'R14', 'slice::sort_by_key with a key closure -> stub (stable permutation sorted by start offset)', count=None)
-    im.resub(r'input_line\s*\.get\(piece\.start \+ 1\.\.piece\.end\.saturating_sub\(1\)\)\s*\.unwrap_or\(command\.as_str\(\)\)', 'str_get_or(input_line, piece.start + 1, if piece.end >= 1 { piece.end - 1 } else { 0 }, command.as_str())', 'R19', 'str::get(range).unwrap_or(fallback) -> stub; saturating_sub(1) spelled out', count=None)
+    im.resub(r'input_line\s*\.get\(((?:(?!\.\.)[^\n])+?)\.\.((?:(?!\.\.)[^\n])+?)\)\s*\.unwrap_or\(command\.as_str\(\)\)', r'str_get_or(input_line, \1, \2, command.as_str())', 'R19', 'str::get(range).unwrap_or(fallback) -> stub (None unless both ends are character boundaries within the text)', count=None)
+    im.resub(r'str_get_or\(input_line, ([^,]+), (\w+(?:\.\w+)*)\.saturating_sub\(1\), command', r'str_get_or(input_line, \1, if \2 >= 1 { \2 - 1 } else { 0 }, command', 'R19', 'usize::saturating_sub(1) spelled out', count=None)
     im.resub(r'\bline\.len\(\)', 'str_len(line)', 'R19', 'str::len -> str_len stub (byte length)', count=None)
     # R24: by-value traversal of the token / piece trees -> by reference (ownership is not observable in the spans)
     im.resub(r'for token in tokens \{', 'for token in tokens.iter() {', 'R24', 'consuming iteration -> by reference', count=None)
